@@ -332,6 +332,20 @@ def r4(repo, res):
                key=f"dispatch:{label}")
 
 
+def minor_solution(repo, **attrs):
+    """A MinorSolution for the writers: the attributes the rule supplies, real methods of solutions.MinorSolution for anything else."""
+    from sa.fold import ClassModel
+
+    cache = repo.__dict__.setdefault("_c12_ms_model", None)
+    if cache is None:
+        def natkey(x):
+            import re as _re
+            return [int(t) if t.isdigit() else t for t in _re.split(r"(\d+)", str(x))]
+        cache = ClassModel(repo.cls("solutions::MinorSolution"), {"natsorted": lambda it, key=None: sorted(it, key=(lambda v: natkey(key(v))) if key else natkey)})
+        repo.__dict__["_c12_ms_model"] = cache
+    return cache.instance(**attrs)
+
+
 def r5(repo, res):
     """Decomposition rows: lifted writer folded on a sample solution with a recording print."""
     import collections as _c
@@ -346,9 +360,9 @@ def r5(repo, res):
                get_rsid=lambda m, default=True: {F1: "rs1", S1: "rs2"}.get(Mut(*m), "-"))
     sol = [Obj(major="1", minor="1.001", added=[], missing=[]), Obj(major="1", minor="1.002", added=[AD], missing=[]),
            Obj(major="3", minor="3.001", added=[], missing=[S2])]
-    msol = Obj(solution=sol, get_major_diplotype=lambda: "*1 / *1 + *3")
+    msol = minor_solution(repo, solution=sol, get_major_diplotype=lambda: "*1 / *1 + *3")
     # a second solution that repeats one minor allele: the first copy gained and lost variants, the second did not
-    rep = Obj(solution=[Obj(major="1", minor="1.002", added=[AD], missing=[S1]), Obj(major="1", minor="1.002", added=[], missing=[]),
+    rep = minor_solution(repo, solution=[Obj(major="1", minor="1.002", added=[AD], missing=[S1]), Obj(major="1", minor="1.002", added=[], missing=[]),
                         Obj(major="3", minor="3.001", added=[], missing=[])], get_major_diplotype=lambda: "*1 + *1 / *3")
     support = {F1: 11, S1: 12, S2: 0, AD: 4}
     rows = []
@@ -408,7 +422,7 @@ def r5(repo, res):
            found=str(got2), clause="per allele copy, exactly the variants that copy is reported to carry", key="decomposition-repeated-minor")
     # edge copies: every variant of the definition lost (one empty row, the copy does not vanish); a variant both gained and lost (not carried)
     rows.clear()
-    edge = Obj(solution=[Obj(major="1", minor="1.002", added=[], missing=[S1]), Obj(major="3", minor="3.001", added=[AD], missing=[AD, S2])],
+    edge = minor_solution(repo, solution=[Obj(major="1", minor="1.002", added=[], missing=[S1]), Obj(major="3", minor="3.001", added=[AD], missing=[AD, S2])],
                get_major_diplotype=lambda: "*1 / *3")
     try:
         k, v = Evaluator(dict(known, sol_id=9, minor=edge), funcs={"print": pr}).run(
@@ -482,7 +496,7 @@ def r6(repo, res):
     params = [a.arg for a in f.args.args]
     # two solutions in one file: every column describes its own solution
     outm = []
-    two = [Obj(solution=[A1(), A3()], get_major_diplotype=lambda: "*1 / *3"), Obj(solution=[A3(), A3(), A1()], get_major_diplotype=lambda: "*3 / *3 + *1")]
+    two = [minor_solution(repo, solution=[A1(), A3()], get_major_diplotype=lambda: "*1 / *3"), minor_solution(repo, solution=[A3(), A3(), A1()], get_major_diplotype=lambda: "*3 / *3 + *1")]
     try:
         k, v = Evaluator({"sample": "S", "gene": gene, "minors": two, "f": "FILE", "version": "0", "coverage": Cov()},
                          funcs={"print": lambda *a, sep=" ", end="\n", file=None: outm.append(sep.join(str(x) for x in a)), "td": lambda t: t,
@@ -515,7 +529,7 @@ def r6(repo, res):
         def pr(*a, sep=" ", end="\n", file=None):
             out.append(sep.join(str(x) for x in a))
 
-        minors = [Obj(solution=sol, get_major_diplotype=lambda: "*x")]
+        minors = [minor_solution(repo, solution=sol, get_major_diplotype=lambda: "*x")]
         env = {"sample": "S", "gene": gene, "minors": minors, "f": "FILE", "version": "0", "coverage": Cov()}
         unknown = [a for a in params if a not in env]
         if unknown:
